@@ -25,6 +25,7 @@ import CBV.Lemmas.C04Parity
 import CBV.Lemmas.C04Chop
 import CBV.Lemmas.C04Hist
 import CBV.Lemmas.C04Prov
+import CBV.Lemmas.C04Total
 
 namespace CBV.Prop
 open CBV.C03 (Vals Q Oracle Tol calculate firstCell lastCell TOL absR)
@@ -356,6 +357,67 @@ theorem T_C04_shared_exact_partial (inp : Inp) (hu : Uniform inp) (st : St) (h :
   unfold secOn
   rw [hu c.id c.inv w0 w]
 
+/-! ### round 6e: the count-based kinds discharge the wire-independence hypothesis on the composed model -/
+
+/-- when every user chop is given by its count and a positive cell-to-cell ratio (`count`, `count + c2c_expansion`,
+    default `preserve`) and every wire has positive length, every evaluation of the calculator succeeds
+    (`Lemmas/C04Total.lean`: no guard rejects, nothing divides by zero, no solver is asked) and the expansion M-PROP
+    receives does not depend on the wire -/
+theorem T_C04_uniform_count_kinds (g : Geo) (hk : countKindsB g = true) (hl : ∀ w, 0 < g.len w) : Uniform (toInp g) := by
+  intro id inv w w'
+  rw [toInp_ev]
+  cases hu : g.uchops[id]? with
+  | none => unfold evG wireVals; rw [hu]
+  | some u =>
+    obtain ⟨hp, h0, h1, n, r, hn, hr, hv⟩ := countKinds_of hk hu
+    obtain ⟨res, hres, hc, hcc⟩ := resolved_count_kind hl hu h0 h1 hn hr hv
+    obtain ⟨v, hv1⟩ := wireVals_count_kind hl hu hp h0 h1 hn hr hv inv w
+    obtain ⟨v', hv2⟩ := wireVals_count_kind hl hu hp h0 h1 hn hr hv inv w'
+    exact T_C04_c2c_same_on_all_wires g id u res n r hu hp hres hc hn hcc (ne_of_gt hr) inv w w' v v' hv1 hv2
+
+/-- `T_C04_shared_exact_partial` without its hypothesis for the count-based kinds: on the composed model, after a
+    successful `Mesh.grade`, every section of every wire — own, or copied through any chain of coincident wires of any
+    blocks — is exactly (no tolerance) what some chop yields on this very wire, read from one end or the other.
+    (Still open, as stated at `T_C04_shared_exact_partial`: that the chop is one the other block of the edge holds.) -/
+theorem T_C04_shared_exact_count_kinds (g : Geo) (hk : countKindsB g = true) (hl : ∀ w, 0 < g.len w) (st : St)
+    (h : run (toInp g) = .ok st) (w : Nat) :
+    ∀ d ∈ specOf st w, ∃ (c : Chop) (k : Nat), d = flipN k (secOn (toInp g) w c) :=
+  T_C04_shared_exact_partial (toInp g) (T_C04_uniform_count_kinds g hk hl) st h w
+
+/-- every user chop keeps the cell-to-cell ratio when copied, has a valid length ratio, and its axis-level calculation
+    has returned a count and a positive ratio (any kind: `count + total_expansion` with its validated root,
+    `start_size + c2c_expansion` with the searched count, …) -/
+def C2cResolved (g : Geo) : Prop :=
+  ∀ id u, g.uchops[id]? = some u → u.preserve = .c2c ∧ 0 < u.ratio ∧ u.ratio ≤ 1 ∧
+    ∃ res n c, resolved g id = .ok res ∧ res.count = some n ∧ 1 ≤ n ∧ res.c2c = some c ∧ 0 < c
+
+/-- the general form: for *every* chop kind whose copies preserve the cell-to-cell ratio, once the axis-level
+    calculations have returned, all wire evaluations on positive lengths succeed and the expansion does not depend on
+    the wire -/
+theorem T_C04_uniform_c2c_preserving (g : Geo) (hk : C2cResolved g) (hl : ∀ w, 0 < g.len w) : Uniform (toInp g) := by
+  intro id inv w w'
+  rw [toInp_ev]
+  cases hu : g.uchops[id]? with
+  | none => unfold evG wireVals; rw [hu]
+  | some u =>
+    obtain ⟨hp, h0, h1, res, n, c, hres, hc, hn, hcc, hc0⟩ := hk id u hu
+    obtain ⟨v, hv1⟩ := wireVals_c2c_total hl hu hp h0 h1 hres hc hn hcc hc0 inv w
+    obtain ⟨v', hv2⟩ := wireVals_c2c_total hl hu hp h0 h1 hres hc hn hcc hc0 inv w'
+    exact T_C04_c2c_same_on_all_wires g id u res n c hu hp hres hc hn hcc (ne_of_gt hc0) inv w w' v v' hv1 hv2
+
+/-- and the exact sections statement for them -/
+theorem T_C04_shared_exact_c2c_preserving (g : Geo) (hk : C2cResolved g) (hl : ∀ w, 0 < g.len w) (st : St)
+    (h : run (toInp g) = .ok st) (w : Nat) :
+    ∀ d ∈ specOf st w, ∃ (c : Chop) (k : Nat), d = flipN k (secOn (toInp g) w c) :=
+  T_C04_shared_exact_partial (toInp g) (T_C04_uniform_c2c_preserving g hk hl) st h w
+
+/-- the count-based kinds are an instance, with nothing to assume about the calculation -/
+theorem T_C04_count_kinds_resolved (g : Geo) (hk : countKindsB g = true) (hl : ∀ w, 0 < g.len w) : C2cResolved g := by
+  intro id u hu
+  obtain ⟨hp, h0, h1, n, r, hn, hr, hv⟩ := countKinds_of hk hu
+  obtain ⟨res, hres, hc, hcc⟩ := resolved_count_kind hl hu h0 h1 hn hr hv
+  exact ⟨hp, h0, h1, res, n, r, hres, hc, hn, hcc, hr⟩
+
 end CBV.Prop
 
 namespace CBV.Prop.Examples
@@ -456,5 +518,33 @@ example : Uniform (twoBoxes 5 0) := fun _ _ _ _ => rfl
     yields, one section of 5 cells -/
 example : (match run (twoBoxes 5 0) with | .ok st => (specOf st 16).map (·.count) | .error _ => []) = [5] := by
   decide +kernel
+
+/-! round 6e -/
+
+/-- the two boxes with count-based chops only (block 0: 4 cells, 5 cells with ratio 6/5, 3 cells; block 1: 2 cells along x),
+    edges of length 1 and, on block 1's unshared y edges, 8/3 -/
+def twoBoxesC : Geo where
+  nBlocks := 2
+  verts := [[0, 1, 2, 3, 4, 5, 6, 7], [1, 8, 9, 2, 5, 10, 11, 6]]
+  len := fun w => if w = 17 ∨ w = 18 then 8 / 3 else 1
+  uchops := [⟨0, 1, { count := some 4, c2c := some 1 }, .c2c⟩, ⟨1, 1, { count := some 5, c2c := some (6 / 5) }, .c2c⟩,
+             ⟨2, 1, { count := some 3, c2c := some 1 }, .c2c⟩, ⟨3, 1, { count := some 2, c2c := some 1 }, .c2c⟩]
+  tol := {}
+  oa := fun _ => {}
+  ow := fun _ _ _ => {}
+
+/-- non-vacuity of `T_C04_uniform_count_kinds` / `T_C04_shared_exact_count_kinds`: the kinds check holds, the lengths are
+    positive, the run succeeds, and the long edge 17 carries the same expansion (6/5)^4 as the short shared edge 16 -/
+example : countKindsB twoBoxesC = true := by decide +kernel
+example : ∀ w, 0 < twoBoxesC.len w := by
+  intro w; unfold twoBoxesC; simp only; split <;> norm_num
+example : (match run (toInp twoBoxesC) with
+    | .ok st => (specOf st 17).map (·.exp) ++ (specOf st 16).map (·.exp)
+    | .error _ => []) = [1296 / 625, 1296 / 625] := by decide +kernel
+
+/-- non-vacuity of `T_C04_uniform_c2c_preserving`: `twoBoxesC` satisfies `C2cResolved` -/
+example : C2cResolved twoBoxesC :=
+  T_C04_count_kinds_resolved twoBoxesC (by decide +kernel)
+    (by intro w; unfold twoBoxesC; simp only; split <;> norm_num)
 
 end CBV.Prop.Examples
